@@ -416,6 +416,31 @@ def negative(hr, vers, frng, case, stats, faults, probes) -> int:
         inject(kind, rel, "empty", b"")
         inject(kind, rel, "extend", data + frng.randbytes(frng.randrange(1, 4)))
         inject(kind, rel, "extend_newline", data + b"\n")
+        # alterations a text-mode reader or a JSON parser does not see: line
+        # endings and insignificant white space (whole file, one place)
+        inject(kind, rel, "line_endings", data.replace(b"\n", b"\r\n"),
+               "LF -> CRLF everywhere")
+        nl = [i for i in range(n) if data[i:i + 1] == b"\n"]
+        sp = [i for i in range(n) if data[i:i + 1] == b" "]
+        if nl:
+            i = frng.choice(nl)
+            inject(kind, rel, "line_endings", data[:i] + b"\r" + data[i + 1:],
+                   f"LF -> CR at offset {i}")
+            i = frng.choice(nl)
+            inject(kind, rel, "line_endings", data[:i] + b"\r" + data[i:],
+                   f"CR inserted before the LF at offset {i}")
+            probes["line_ending_alterations"] += 1
+        if sp:
+            i = frng.choice(sp)
+            inject(kind, rel, "white_space", data[:i] + b"\t" + data[i + 1:],
+                   f"blank -> tab at offset {i}")
+            inject(kind, rel, "white_space", data[:i] + b" " + data[i:],
+                   f"blank doubled at offset {i}")
+        for off in ([frng.randrange(n) for _ in range(3)] if n else []):
+            other = bytearray(data)
+            other[off] = (other[off] + frng.randrange(1, 256)) % 256
+            inject(kind, rel, "byte_replaced", bytes(other),
+                   f"at offset {off}")
         if exhaustive:
             offsets = range(n)
             lengths = range(1, n)
@@ -471,7 +496,7 @@ shrink = esess.shrink_history
 def reach(agg):
     need = []
     p, f = agg["probes"], agg["faults"]
-    for name in ("bit_flip", "truncate", "extend", "delete", "swap",
+    for name in ("line_endings", "byte_replaced", "bit_flip", "truncate", "extend", "delete", "swap",
                  "rollback"):
         if not f.get(name):
             need.append(f"fault {name} never injected")
